@@ -9,51 +9,76 @@ import (
 	"github.com/rpcpool/yellowstone-faithful/ipld/ipldbindcode"
 )
 
-// VerifC14Fault — exactly one fault injected into a well-formed payload that carries the frame
-// count and the checksum (total = n on every frame, checksum = any 64-bit value h):
+// VerifC14Fault — exactly one fault injected into a well-formed payload (total = n on every
+// frame; checksum h on every frame, or no checksum at all to exercise the count check alone):
 //
 //	0  a linked frame is absent from the store (the getter fails for its CID)
-//	1  the recorded total differs from the number of linked frames (a frame dropped from / added
-//	   to the links without the total following)
+//	1  the link to a frame is removed from its parent's list (the frame and the frames below it
+//	   are no longer reachable), the total still says n
 //	2  the CID of a frame is listed once more (in its own parent's list or in the list of any
 //	   frame outside its sub-tree; at the front or at the end of that list)
 //	3  the link to one frame is replaced by the CID of a frame of another payload (own index,
-//	   total, checksum and data)
+//	   total, checksum and data); only for payloads with a checksum, nothing else can notice it
 //
-// Faults 0..2 must be reported as an error whatever h is. Fault 3 on an inner frame loses the
-// frames below it (count check); on a leaf the count is unchanged and the verdict is the
-// checksum's: the call succeeds only if h is the CRC64 or the FNV-1a of the bytes actually assembled
-// (foreign frame at the place its own index gives it), and then exactly those bytes are returned.
+// Oracle (the property, literally): the call either reports an error (and returns no bytes) or
+// returns exactly the original payload. X is what a reassembly can put together from the frames
+// that are reachable after the fault (every frame as often as it is linked, in index order). The
+// checksum's strength is outside the claim: h is any 64-bit value other than the CRC64 / FNV-1a
+// of X, unless X happens to equal the original bytes (e.g. the lost frame was empty).
 func VerifC14Fault() {
 	maxN := verifParam("N", 4)
 	n := 2 + verifChoice("frames", maxN-1)
 	fault := verifChoice("fault", 4)
-	h := verifInt("hash")
+	hasHash := fault == 3 || verifChoice("checksum", 2) == 0
+	h := 0
+	if hasHash {
+		h = verifInt("hash")
+	}
+	c14Concrete = n > verifParam("symN", 4)
 	p := c14NewPayload(n, 0, c14Lens(1), c14PermEnds)
+	p.setMeta(n, hasHash, h)
 	st := &c14Store{missing: -1}
 	st.add(p)
+
+	d := 1 + verifChoice("victim", n-1)
+	inSub := make([]bool, n) // sub-tree of d (pre-order: descendants have larger numbers)
+	inSub[d] = true
+	for k := d + 1; k < n; k++ {
+		inSub[k] = inSub[p.parent[k]]
+	}
+	mult := make([]int, n) // how often frame k is reachable after the fault
+	for k := range mult {
+		mult[k] = 1
+	}
+	var fData []byte
+	fIdx := 0
+	foreign := false
+
 	switch fault {
 	case 0:
-		p.setMeta(n, true, h)
-		st.missing = verifChoice("missing", n-1)
-		got, err := LoadDataFromDataFrames(p.frames[0], st.get)
-		verifAssert(err != nil, "C14.fault: a frame is missing from the store but reassembly succeeded")
-		verifAssert(got == nil, "C14.fault: bytes returned together with an error (missing frame)")
-	case 1:
-		total := verifInt("total")
-		verifAssume(total != n)
-		p.setMeta(total, true, h)
-		got, err := LoadDataFromDataFrames(p.frames[0], st.get)
-		verifAssert(err != nil, "C14.fault: number of linked frames differs from the recorded total but reassembly succeeded")
-		verifAssert(got == nil, "C14.fault: bytes returned together with an error (count)")
-	case 2:
-		p.setMeta(n, true, h)
-		d := 1 + verifChoice("dup", n-1)
-		inSub := make([]bool, n) // sub-tree of d (pre-order: descendants have larger numbers)
-		inSub[d] = true
-		for k := d + 1; k < n; k++ {
-			inSub[k] = inSub[p.parent[k]]
+		st.missing = d - 1 // table slot of frame d
+		for k := range mult {
+			if inSub[k] {
+				mult[k] = 0
+			}
 		}
+	case 1:
+		links, _ := p.frames[p.parent[d]].GetNext()
+		var kept ipldbindcode.List__Link
+		for i := range links {
+			if !links[i].(cidlink.Link).Cid.Equals(p.cids[d]) {
+				kept = append(kept, links[i])
+			}
+		}
+		verifAssert(len(kept) == len(links)-1, "C14.fault: harness: victim link not found")
+		np := &kept
+		p.frames[p.parent[d]].Next = &np
+		for k := range mult {
+			if inSub[k] {
+				mult[k] = 0
+			}
+		}
+	case 2:
 		var cand []int
 		for k := 0; k < n; k++ {
 			if !inSub[k] {
@@ -72,19 +97,25 @@ func VerifC14Fault() {
 		}
 		np := &next
 		p.frames[q].Next = &np
-		got, err := LoadDataFromDataFrames(p.frames[0], st.get)
-		verifAssert(err != nil, "C14.fault: a frame is linked twice but reassembly succeeded")
-		verifAssert(got == nil, "C14.fault: bytes returned together with an error (duplicate)")
+		for k := range mult {
+			if inSub[k] {
+				mult[k] = 2
+			}
+		}
 	case 3:
-		p.setMeta(n, true, h)
-		d := 1 + verifChoice("victim", n-1)
-		fIdx := verifInt("foreignIndex")
+		foreign = true
+		fIdx = verifInt("foreignIndex")
 		for k := 0; k < n; k++ {
-			if k != d {
+			if !inSub[k] {
 				verifAssume(fIdx != p.idx[k]) // equal indices: the order is up to sort.Slice (not stable)
 			}
 		}
-		fData := verifBytes("foreignData", (d+2)%3)
+		fData = verifBytes("foreignData", (d+2)%3)
+		if c14Concrete {
+			for j := range fData {
+				fData[j] = byte(0xE1 + 0x0D*j)
+			}
+		}
 		ff := &ipldbindcode.DataFrame{Kind: 6, Data: ipldbindcode.Buffer(append([]byte{}, fData...))}
 		ff.Index = c14pp(fIdx)
 		ff.Total = c14pp(verifInt("foreignTotal"))
@@ -101,47 +132,58 @@ func VerifC14Fault() {
 			}
 		}
 		verifAssert(replaced, "C14.fault: harness: victim link not found")
-		leaf := true
-		for k := d + 1; k < n; k++ {
-			if p.parent[k] == d {
-				leaf = false
+		for k := range mult {
+			if inSub[k] {
+				mult[k] = 0
 			}
-		}
-		got, err := LoadDataFromDataFrames(p.frames[0], st.get)
-		if !leaf {
-			verifAssert(err != nil, "C14.fault: frames below a replaced frame are lost but reassembly succeeded")
-			verifAssert(got == nil, "C14.fault: bytes returned together with an error (foreign inner frame)")
-			break
-		}
-		// the bytes a correct reassembly puts together: frames in index order
-		byRank := make([]int, n)
-		for k := 0; k < n; k++ {
-			byRank[p.rank[k]] = k
-		}
-		var mixed []byte
-		placed := false
-		for r := 0; r < n; r++ {
-			k := byRank[r]
-			if k == d {
-				continue
-			}
-			if !placed && fIdx < p.idx[k] {
-				mixed = append(mixed, fData...)
-				placed = true
-			}
-			mixed = append(mixed, p.data[k]...)
-		}
-		if !placed {
-			mixed = append(mixed, fData...)
-		}
-		isCrc := uint64(h) == c14Crc(mixed)
-		isFnv := uint64(h) == c14Fnv(mixed)
-		if err == nil {
-			verifAssert(verifIteU64(isCrc, 1, 0)|verifIteU64(isFnv, 1, 0) != 0, "C14.fault: payload with a foreign frame accepted although the recorded checksum matches neither CRC64 nor FNV-1a of the assembled bytes")
-			verifAssert(bytes.Equal(got, mixed), "C14.fault: returned bytes are not the checked bytes")
-		} else {
-			verifAssert(got == nil, "C14.fault: bytes returned together with an error (foreign leaf)")
 		}
 	}
+
+	// X: the reachable frames in index order
+	byRank := make([]int, n)
+	for k := 0; k < n; k++ {
+		byRank[p.rank[k]] = k
+	}
+	var x []byte
+	placed := !foreign
+	for r := 0; r < n; r++ {
+		k := byRank[r]
+		if mult[k] == 0 {
+			continue
+		}
+		if !placed && fIdx < p.idx[k] {
+			x = append(x, fData...)
+			placed = true
+		}
+		for m := 0; m < mult[k]; m++ {
+			x = append(x, p.data[k]...)
+		}
+	}
+	if !placed {
+		x = append(x, fData...)
+	}
+	if hasHash {
+		// branch-free: no fork on the hypothesis
+		noColl := verifIteU64(uint64(h) == c14Crc(x), 1, 0)|verifIteU64(uint64(h) == c14Fnv(x), 1, 0) == 0
+		if len(x) != len(p.orig) {
+			verifAssume(noColl)
+		} else {
+			verifAssume(verifIteU64(bytes.Equal(x, p.orig), 1, 0)|verifIteU64(noColl, 1, 0) != 0)
+		}
+	}
+
+	got, err := LoadDataFromDataFrames(p.frames[0], st.get)
+	if err == nil {
+		if hasHash {
+			verifAssert(bytes.Equal(got, p.orig), "C14.fault: faulty payload accepted and bytes other than the original payload returned")
+		} else {
+			verifAssert(bytes.Equal(got, p.orig), "C14.fault(count only): faulty payload without checksum accepted and bytes other than the original payload returned")
+		}
+	} else {
+		verifAssert(got == nil, "C14.fault: bytes returned together with an error")
+	}
+	verifReach(c14FaultNames[fault])
 	verifReach("end")
 }
+
+var c14FaultNames = []string{"missing", "unlinked", "duplicate", "foreign"}
